@@ -76,6 +76,10 @@ func init() {
 		for i := 0; i < 12; i++ {
 			whites = append(whites, ciexyz.Color{X: float32(0.3 + 1.2*rng.Float64()), Y: float32(0.3 + 1.2*rng.Float64()), Z: float32(0.3 + 1.2*rng.Float64())})
 		}
+		// whites related to each other by a permutation or a sign-free rearrangement of their components, placed
+		// next to each other: a cache keyed on something weaker than the white itself confuses them
+		whites = append(whites, ciexyz.Color{X: 0.8251, Y: 1, Z: 0.9642}, ciexyz.D50, ciexyz.Color{X: 1, Y: 1, Z: 1}, ciexyz.Color{X: 0.9, Y: 1, Z: 0.9}, ciexyz.Color{X: 0.5, Y: 1, Z: 0.5},
+			ciexyz.Color{X: 0.7, Y: 0.8, Z: 0.8}, ciexyz.Color{X: 0.7, Y: 1.1, Z: 1.1}, ciexyz.Color{X: 1.08883, Y: 1, Z: 0.95047}, ciexyz.D65)
 		const e = 216.0 / 24389.0
 		var cols []ciexyz.Color
 		n := 14
@@ -198,9 +202,36 @@ func init() {
 					}
 				}
 			}
-			// Lab box -> XYZ -> Lab
+			// Lab box -> XYZ against the inverse of the definition (float64); every fourth point lies on an axis of the
+			// a-b plane (a or b exactly zero, of either sign), every sixteenth is a grey
+			gInv := func(t float64) float64 {
+				if t*t*t > e {
+					return t * t * t
+				}
+				return (116*t - 16) / (24389.0 / 27.0)
+			}
 			for i := 0; i < 3000; i++ {
 				lab := cielab.Color{L: float32(-10 + 120*rng.Float64()), A: float32(-200 + 400*rng.Float64()), B: float32(-200 + 400*rng.Float64())}
+				switch i % 16 {
+				case 0, 8:
+					lab.A = 0
+				case 4:
+					lab.B = 0
+				case 12:
+					lab.B = float32(math.Copysign(0, -1))
+				case 15:
+					lab.A, lab.B = 0, 0
+				}
+				if i%4 == 0 {
+					fy := (float64(lab.L) + 16) / 116
+					wantX, wantY, wantZ := gInv(float64(lab.A)/500+fy)*float64(w.X), gInv(fy)*float64(w.Y), gInv(fy-float64(lab.B)/200)*float64(w.Z)
+					got := ciexyz.ColorFromLAB(lab, w)
+					tol := func(v float64) float64 { return 1e-5 * math.Max(1, math.Abs(v)) }
+					if math.Abs(float64(got.X)-wantX) > tol(wantX) || math.Abs(float64(got.Y)-wantY) > tol(wantY) || math.Abs(float64(got.Z)-wantZ) > tol(wantZ) {
+						c.res.fail(Failure{Class: "C13:inverse", Desc: "ColorFromLAB differs from the inverse of the CIE 1976 definition by more than 1e-5 (relative above 1)", Input: map[string]interface{}{"white": w, "lab": lab},
+							Got: fmt.Sprint(got), Want: fmt.Sprint(wantX, wantY, wantZ)})
+					}
+				}
 				x := ciexyz.ColorFromLAB(lab, w)
 				c.res.count("fromLAB", fmt.Sprint(w, lab), true)
 				if math.IsNaN(float64(x.X+x.Y+x.Z)) || math.IsInf(float64(x.X+x.Y+x.Z), 0) {
